@@ -159,7 +159,9 @@ def _plan_job(args):
                               invariants=plan.get('invariants', INVARIANTS), properties=plan.get('properties', PROPERTIES),
                               must_cover=plan.get('must_cover', ()), extra_consts=extra, genkind=genkind if genkind != 'uuid' else 'int',
                               userids=userids, timeout=plan.get('timeout', 1500))
-        budget = plan.get('budget', 6000) if tier == 'quick' else plan.get('budget_thorough')
+        # (thorough: a tour of every edge of a graph with millions of edges takes hours in this harness; the default is a
+        # budget twenty times the quick one, plans with small graphs ask for everything with budget_thorough=None)
+        budget = plan.get('budget', 6000) if tier == 'quick' else plan.get('budget_thorough', 20 * plan.get('budget', 6000))
         stages = plan.get('stages') or [(lambda lab, dst: True, 1.0)]
         if plan.get('state_cover'):
             stages = [(tours.bfs_tree_edges(g), plan['state_cover'])] + list(stages)
